@@ -11,7 +11,7 @@ from engine.par import pmap
 
 
 SPEC_NAMES = ('cnt1', 'pos1', 'neg1', 'sum1', 'sumF1', 'sumFp1', 'sumFn1', 'dot1', 'ccnt', 'cpos', 'cneg', 'csum', 'totF', 'totFp', 'totFn', 'dot2',
-              'isperm', 'ixperm', 'F', 'modsum', 'modsumT', 'degsum', 'degsumT', 'walk', 'sdist', 'Qmod', 'Qrawg', 'QrawB', 'agg', 'umul', 'udiv', 'dset', 'rset', 'wset', 'cntb', 'tsum', 'trace1', 'sumdot')
+              'isperm', 'ixperm', 'F', 'modsum', 'modsumT', 'degsum', 'degsumT', 'walk', 'sdist', 'KC', 'KN', 'Qmod', 'Qrawg', 'QrawB', 'agg', 'umul', 'udiv', 'dset', 'rset', 'wset', 'cntb', 'tsum', 'trace1', 'sumdot')
 
 
 def to_smt2(premises, goal, axioms):
